@@ -351,12 +351,27 @@ func (d Descriptor) OCIBlobDigest() (v1.Hash, error) {
 	return o.digest, nil
 }
 
+var errInvalidObjectSize = errors.New("invalid data object size")
+
 // GetData returns the data object associated with descriptor d.
 func (d Descriptor) GetData() ([]byte, error) {
-	b := make([]byte, d.raw.Size)
-	if _, err := io.ReadFull(d.GetReader(), b); err != nil {
+	if d.raw.Size < 0 {
+		return nil, errInvalidObjectSize
+	}
+
+	// Allocate as data is read, rather than trusting the size recorded in the descriptor.
+	b, err := io.ReadAll(d.GetReader())
+	if err != nil {
 		return nil, err
 	}
+
+	if int64(len(b)) < d.raw.Size {
+		if len(b) == 0 {
+			return nil, io.EOF
+		}
+		return nil, io.ErrUnexpectedEOF
+	}
+
 	return b, nil
 }
 
